@@ -99,6 +99,16 @@ MENU = {
     "half-header": lambda: ECHO_RQ[:3],
 }
 PEER_ACTIONS = list(MENU) + ["close", "reset"]
+# two PDUs written in one segment ("a+b"): the second is already readable when the reactor has
+# consumed the first, so its event queue runs one event behind
+BURST_SECOND = ("invalid", "rq", "abort", "release-rq")
+# (a PDU the reader stalls on - unknown type, incomplete - stalls it whatever precedes or follows: not combined)
+STALLERS = ("unknown", "half", "half-header")
+BURSTS = [f"{a}+{b}" for a in MENU if a not in STALLERS for b in BURST_SECOND]
+
+
+def menu_bytes(action):
+    return b"".join(MENU[x]() for x in action.split("+"))
 
 
 class StopScript(Exception):
@@ -147,7 +157,7 @@ class PeerScenario(Scenario):
                 peer["closed"] = True
             else:
                 try:
-                    sock.send(MENU[action]())
+                    sock.send(menu_bytes(action))
                 except OSError as e:
                     ctx["peer_log"].append(("send-failed", action, type(e).__name__))
 
@@ -183,6 +193,10 @@ class PeerScenario(Scenario):
                 so = sim.SimSocket()
                 so.connect(("127.0.0.1", scen.PORT))
                 peer["sock"] = so
+                if self.events and self.events[0][0] == "early":
+                    # the peer's first bytes are on the socket before the acceptor's threads run at all
+                    ctx["peer_log"].append(("early", self.events[0][1]))
+                    do_peer(self.events[0][1])
                 peer_loop()
 
             s.spawn(peer_main, "peer")
@@ -230,6 +244,9 @@ class PeerScenario(Scenario):
             s.spawn(user_main, "user")
 
         evs = collections.deque(self.events)
+        if evs and evs[0][0] == "early":
+            evs.popleft()  # already sent right after connect()
+            ctx["events_done"] = ctx.get("events_done", 0) + 1
 
         def hook(sched):
             while evs and evs[0][0] == "tick" and not _has_deadline(sched):
@@ -368,7 +385,8 @@ def mon_peer_terminates(scn, s, ctx, why):
 
 
 def _expand(args):
-    role, user, hist, monitors, races = args
+    role, user, hist, monitors, races = args[:5]
+    bursts = args[5] if len(args) > 5 else True
     from vk import explore
 
     # closure run: history then silence; all monitors
@@ -388,6 +406,8 @@ def _expand(args):
         if why == "script-end":
             if not ctx["peer"]["closed"] and ctx["peer"]["sock"] is not None:
                 menu += [("peer", a) for a in PEER_ACTIONS]
+                if bursts:
+                    menu += [("peer", a) for a in BURSTS]
             if has_deadline:
                 menu.append(("tick",))
                 if races and not ctx["peer"]["closed"] and ctx["peer"]["sock"] is not None:
@@ -395,6 +415,9 @@ def _expand(args):
                     menu += [("race", a, k, j) for a in RACE_ACTIONS for k in range(len(RACE_DELTAS)) for j in range(nd)]
             if role == "requestor" and ctx["user"]["pos"] + len([1 for e in hist if e[0] == "user"]) - ctx["user"]["pos"] < len(user) and _user_waiting(s):
                 menu.append(("user",))
+            if bursts and role == "acceptor" and not hist:
+                # alternatives to the empty history: the peer's first bytes are sent right after connect()
+                menu += [("early", a) for a in [m for m in MENU if m not in STALLERS] + BURSTS]
         steps = s.steps + r["steps"]
     return hist, key, menu, viol, r["summary"], steps
 
@@ -452,7 +475,7 @@ def bfs(role, user, monitors, max_depth, seed=0, log=None, max_states=None, race
             stats["executions"] += 2
             stats["steps"] += steps
             summaries[summ] += 1
-            last = next((e[1] if e[0] == "peer" else (f"race-{e[1]}{e[2]}{'' if len(e) < 4 or not e[3] else 'b'}" if e[0] == "race" else e[0]) for e in reversed(hist) if e[0] != "tick"), "start")
+            last = next((e[1] if e[0] == "peer" else f"early-{e[1]}" if e[0] == "early" else (f"race-{e[1]}{e[2]}{'' if len(e) < 4 or not e[3] else 'b'}" if e[0] == "race" else e[0]) for e in reversed(hist) if e[0] != "tick"), "start")
             for k, what in viol:
                 kk = f"{role}:{k}:after-{last}"
                 if kk not in viols:
